@@ -18,7 +18,7 @@ import numpy as np
 from vlib import gen
 from vlib.fitcase import Member
 from vlib.models import Model
-from vlib.monitor import fmt_exc, time_limit, OpTimeout
+from vlib.monitor import FaultyHandle, InjectedFault, OpTimeout, fmt_exc, time_limit
 
 PROPERTY = "C08"
 TIERS = {"quick": {"shards": 8, "budget_s": 45}, "thorough": {"shards": 16, "budget_s": 600}}
@@ -143,26 +143,6 @@ def gen_case(rng, tier, idx, shard, nshards):
         if (gi // 10) % 2 == 1:
             case["fault"].update(early=True, query=EARLY_QUERIES[(gi // 20) % len(EARLY_QUERIES)], call=int(rng.choice([1, 2, 3, 5, 8, 13])))
     return case
-
-
-class InjectedFault(ArithmeticError):
-    pass
-
-
-class FaultyHandle:
-    """the minimiser's cost function handle; raises once, at its k-th evaluation away from the optimum p0 (the model is known to be
-    defined at the optimum itself: evaluations there, e.g. the write-back that ends an excursion, are passed through uncounted)"""
-
-    def __init__(self, f, k, p0):
-        self.f, self.k, self.n, self.p0 = f, k, 0, np.array(p0, dtype=float)
-
-    def __call__(self, *a):
-        if len(a) == len(self.p0) and np.array_equal(np.array(a, dtype=float), self.p0):
-            return self.f(*a)
-        self.n += 1
-        if self.n == self.k:
-            raise InjectedFault("injected at cost evaluation %d away from the optimum" % self.k)
-        return self.f(*a)
 
 
 # ------------------------------------------------------------------ queries
